@@ -6,4 +6,6 @@ CONSTANTS
 INVARIANT InvStandalone
 INVARIANT InvAbort
 INVARIANT InvComplete
+INVARIANT InvPrefix
+INVARIANT InvHydRepeat
 CHECK_DEADLOCK FALSE
